@@ -6,7 +6,8 @@ spec-level meaning of each mutation.  A second configuration injects one
 database error at a sampled statement, retries, and demands the same rows
 as the uninterrupted model (no double fill, no loss).
 """
-from evosim import project as proj, runner, scenarios, snapshot, rowmodel
+from evosim import project as proj, runner, scenarios, snapshot, rowmodel, \
+    spec
 from evosim.engine import violation
 from evosim.props import common, c01
 
@@ -33,6 +34,7 @@ RULE_TEXT = (
     'index, then a fault-free retry). Non-trivial = at least one table with '
     'rows was rewritten/renamed or got a column added/changed; distinct = '
     'shape digest.')
+RULE_TEXT += ' 1 in 25: "column_rename" family (a surviving relation / plain column renamed through ChangeField(db_column=), also back to its default name).'
 ASSUMPTIONS = [
     'row model semantics in evosim/rowmodel.py (rename carries values, add '
     'fills initial or NULL, delete drops, null->not-null replaces exactly '
@@ -72,8 +74,47 @@ def _merged_initials(scn):
     return False
 
 
+def _gen_column_rename(rng):
+    """A surviving column changes its name through ChangeField(db_column=):
+    to another explicit name, or back to the field's default column (None) -
+    which for a relation is <name>_id.  Every value has to be found under
+    the new column name afterwards."""
+    intf = lambda n: {'name': n, 'kind': 'Integer', 'attrs': {'null': True}}
+    part = {'name': 'Part', 'fields': [intf('p')], 'meta': {}}
+    rel = rng.random() < 0.6
+    if rel:
+        f = {'name': 'owner', 'kind': rng.choice(['ForeignKey', 'OneToOne']),
+             'attrs': {'null': True}, 'to': 'va.Part'}
+    else:
+        f = intf('c')
+    start_explicit = rng.random() < 0.7
+    if start_explicit:
+        f['attrs']['db_column'] = 'owner_ref' if rel else 'c_col'
+        new = None if rng.random() < 0.6 else 'col_new'
+    else:
+        new = 'col_new'
+    item = {'name': 'Item', 'fields': [intf('a'), f], 'meta': {}}
+    col = spec.column_name(f)
+    rows = {'va_part': [{'id': 1, 'p': 1}, {'id': 2, 'p': 2}],
+            'va_item': [{'id': 1, 'a': 5, col: 2}, {'id': 2, 'a': 6,
+                                                     col: None},
+                        {'id': 3, 'a': None, col: 1}]}
+    muts = [{'op': 'ChangeField', 'model': 'Item', 'name': f['name'],
+             'attrs': {'db_column': new}}]
+    if rng.random() < 0.4:
+        muts.append({'op': 'AddField', 'model': 'Item', 'field': intf('b')})
+    project = {'apps': {'va': {'v0': [part, item], 'steps': [{'evos': [
+        {'label': spec.evo_label(0), 'mutations': muts}]}]}},
+        'order': ['va'], 'databases': ['default']}
+    return {'project': project, 'rows': rows, 'cfg': {}, 'mode': 'written',
+            'fault': rng.random() < 0.25, 'fault_pos': rng.random(),
+            'family': 'column_rename'}
+
+
 def generate(seed, index, tier):
     from evosim import gen
+    if index % 25 == 24:
+        return _gen_column_rename(scenarios.derive_rng(seed, ID, index))
     for attempt in range(20):
         rng = scenarios.derive_rng(seed, ID, index, attempt)
         cfg = gen.swarm_config(rng)
